@@ -473,13 +473,21 @@ def _run(inst, sch, fmp, fault, yield_labels):
     return obs
 
 
-def run_schedule(inst, choices=(), fault=None, mode="mem", clip=False):
+LAST_RUN = {}
+
+
+def run_schedule(inst, choices=(), fault=None, mode="mem", clip=False, fire_timer=None):
     """one execution under the scheduler; mode 'sync': only barrier operations are scheduling points; 'mem': also the
-    shared-memory access labels; 'all': every hook label"""
+    shared-memory access labels; 'all': every hook label.  fire_timer = n: the n-th wait that was given a finite timeout
+    expires before its condition holds (a timer landing first)"""
     sch = S.Scheduler(choices, clip=clip)
+    sch.fire_timer = fire_timer
+    sch.timed_waits = 0
     fmp = S.FakeMultiprocessing(sch)
     yl = dict(sync=set(), mem=MEM_LABELS, all=set(HOOK_LABELS))[mode]
-    return _run(inst, sch, fmp, fault, yl)
+    o = _run(inst, sch, fmp, fault, yl)
+    LAST_RUN["timed_waits"] = int(getattr(sch, "timed_waits", 0) or 0)
+    return o
 
 
 # --------------------------------------------------------------------------------------------------------------
@@ -857,6 +865,7 @@ def main(tier, seed, t0):
 
         # ------------------------------------------------------------------ stripe-count dependence of the maps
         cross_layout(ctx, scratch, cov)
+        timers(ctx, scratch, cov)
 
         # ------------------------------------------------------------------ layer 4b/c: real processes
         try:
@@ -941,6 +950,30 @@ def conformance(tier, progs, scratch, ctx):
         out["instances"].append(dict(S=s_, C=c_, mask=mask, faults=fmode, states=len(g["nodes"]), edges=len(g["edges"]),
                                      paths=len(paths), kind=kind, disagreements=bad))
     return out
+
+
+def timers(ctx, scratch, cov):
+    """'never blocks / identical for every interleaving' includes the interleavings in which a stripe is slow: if the stripe
+    code arms a finite timeout on a synchronisation wait, that timer may land first.  Every armed timed wait is made to expire
+    once (deviation bound 1); the call must still return the same maps."""
+    f = os.path.join(scratch, "c07_timers.fits")
+    E.make_image(f, 24, COLS, nan_block=True, offset=1024.0, seed=5)
+    total = 0
+    for nslice, cores in [(2, 2), (3, 3)]:
+        inst = dict(file=f, shape=(24, COLS), grid=GRID, box=BOX, cores=cores, nslice=nslice, mask=True, name="timers")
+        ref = run_schedule(inst, (), mode="sync")
+        ctx.count("timer_runs")
+        armed = int(LAST_RUN.get("timed_waits", 0))
+        total += armed
+        for n in range(min(armed, 12)):
+            o = run_schedule(inst, (), mode="sync", fire_timer=n)
+            ctx.count("timer_runs")
+            same = o.outcome == "ok" and ref.outcome == "ok" and np.array_equal(o.bkg, ref.bkg, equal_nan=True) and np.array_equal(o.rms, ref.rms, equal_nan=True)
+            if not same:
+                ctx.violation("a synchronisation wait in the stripe code carries a finite timeout; when timed wait #%d expires before the other stripes arrive "
+                              "(a slow stripe, %d stripes) the call ends with %s %s instead of returning the maps" % (n, nslice, o.outcome, getattr(o, "detail", "")),
+                              "timer_breaks_call|nslice=%d,timer=%d" % (nslice, n), clause="timers", case=dict(nslice=nslice, cores=cores, timer=n))
+    cov["timers"] = dict(timed_waits_armed=total, note="0 = the stripe code waits without time limits; each armed timer is fired once")
 
 
 def cross_layout(ctx, scratch, cov):
@@ -1042,6 +1075,8 @@ def evaluate(clause, case, ctx):
                 ctx.violation("fault run: %s %s leaked=%r" % (o.outcome, o.detail, o.leaked), "replay")
         elif o.outcome != "ok" or o.leaked:
             ctx.violation("schedule: %s %s leaked=%r" % (o.outcome, o.detail, o.leaked), "replay")
+    elif clause == "timers":
+        timers(ctx, scratch, {})
     elif clause == "cross_layout":
         cov = {}
         cross_layout(ctx, scratch, cov)
